@@ -2,11 +2,13 @@
 """Record confirmed seeded changes from /var/tmp/seed/out-Cxx into /verif/seeded/Cxx-1/ (patch.diff, demo/, notes.md, meta.json)."""
 import json, os, shutil, glob, sys
 meta = json.load(open(os.path.join(os.path.dirname(__file__), 'seed_meta.json')))
-for pid, m in meta.items():
-    src = '/var/tmp/seed/out-' + pid
+for key, m in meta.items():
+    pid, _, rnd = key.partition('-')
+    rnd = rnd or '1'
+    src = '/var/tmp/seed/out' + ('' if rnd == '1' else rnd) + '-' + pid
     if not os.path.exists(src + '/patch.diff'):
         continue
-    dst = '/verif/seeded/' + pid + '-1'
+    dst = '/verif/seeded/' + pid + '-' + rnd
     os.makedirs(dst + '/demo', exist_ok=True)
     shutil.copy(src + '/patch.diff', dst + '/patch.diff')
     for f in glob.glob(src + '/demo/*'):
@@ -15,15 +17,15 @@ for pid, m in meta.items():
     if os.path.exists(src + '/notes.md'):
         shutil.copy(src + '/notes.md', dst + '/notes.md')
     conf = ''
-    p = '/var/tmp/seed/confirm-%s.log' % pid
+    p = '/var/tmp/seed/confirm%s-%s.log' % ('' if rnd == '1' else rnd, pid)
     if os.path.exists(p):
         conf = ''.join(l for l in open(p) if 'no non-test Go files' not in l)[-1800:]
     elif os.path.exists(dst + '/meta.json'):
         conf = json.load(open(dst + '/meta.json')).get('confirm_log_tail', '')
-    json.dump({"id": pid + '-1', "property": pid, "change": m['change'], "needs_to_manifest": m['needs'],
+    json.dump({"id": pid + '-' + rnd, "property": pid, "change": m['change'], "needs_to_manifest": m['needs'],
                "author": "independent sub-agent given only the property text and a scratch worktree of /repo",
                "confirmed_by_me": "tools/seed_confirm.sh on a scratch worktree of /repo HEAD: demo passes without the change and fails with it; all packages except consensus/snowman (which does not build on the unchanged tree either) build; the existing tests of the touched packages pass with the change",
                "confirm_log_tail": conf, "check_result": m['result'], "check_strengthened_because_of_it": m.get('strengthened', False),
-               "evaluated_with": "tools/seed_eval.sh /verif/seeded/%s-1/patch.diff %s quick" % (pid, m.get('check', pid))},
+               "evaluated_with": "tools/seed_eval.sh /verif/seeded/%s-%s/patch.diff %s quick" % (pid, rnd, m.get('check', pid))},
               open(dst + '/meta.json', 'w'), indent=1)
 print(sorted(os.listdir('/verif/seeded')))
